@@ -123,9 +123,10 @@ RFCValid(m, n, pad) == /\ pad >= 4 /\ pad <= 255
 
 (* What cipher.go computes (transcription of the four writeCipherPacket methods).
    streamPacketCipher pads to packetSizeMultiple = 16 whatever the cipher; gcmCipher to 16;
-   chacha20Poly1305Cipher to 8; cbcCipher to max(8, block size) with a minimum of 16 bytes and
-   -- whatever the MAC -- counts the length field in (it has no EtM variant). *)
-CodeAad(m) == CASE m.class \in {"StreamEtM", "GCM", "ChaChaPoly"} -> 4 [] OTHER -> 0
+   chacha20Poly1305Cipher to 8; cbcCipher to max(8, block size) with a minimum of 16 bytes up to
+   the MAC, where with an -etm MAC (cbcCipher.etm, since commit 78606fd) the unencrypted length
+   field is left out of the alignment (aadLen = 4). *)
+CodeAad(m) == CASE m.class \in {"StreamEtM", "GCM", "ChaChaPoly", "CBCEtM"} -> 4 [] OTHER -> 0
 CodePad(m, n) ==
   CASE m.class \in {"StreamEaM", "StreamEtM", "None"} ->
          LET p == 16 - ((5 + n - CodeAad(m)) % 16) IN IF p < 4 THEN p + 16 ELSE p
@@ -135,8 +136,9 @@ CodePad(m, n) ==
          LET p == 8 - ((1 + n) % 8) IN IF p < 4 THEN p + 8 ELSE p
     [] m.class \in {"CBC", "CBCEtM"} ->
          LET eb  == Max(8, m.bs)
+             aad == CodeAad(m)
              e0  == Max(5 + n + 4, 16)
-             enc == ((e0 + eb - 1) \div eb) * eb
+             enc == aad + ((e0 - aad + eb - 1) \div eb) * eb
          IN  (enc - 4) - (1 + n)
 
 MaxPadRFC == 40     \* bound on the paddings explored under PadRule = "rfc" (real bound: 255)
@@ -149,10 +151,14 @@ ReaderStructOK(m, n, pad) ==
   LET len == PktLen(n, pad) IN
   CASE m.class \in {"StreamEaM", "StreamEtM", "None"} -> len > pad + 1 /\ len <= MaxPacket
     [] m.class \in {"GCM", "ChaChaPoly"} -> len <= MaxPacket /\ len >= 1 /\ pad >= 4 /\ pad + 1 < len
-    [] m.class \in {"CBC", "CBCEtM"} -> /\ len <= MaxPacket
-                                        /\ len + 4 >= Max(16, m.bs)
-                                        /\ (len + 4) % Max(8, m.bs) = 0
-                                        /\ pad >= 4 /\ len > pad + 1
+    [] m.class = "CBC" -> /\ len <= MaxPacket
+                          /\ len + 4 >= Max(16, m.bs)
+                          /\ (len + 4) % Max(8, m.bs) = 0
+                          /\ pad >= 4 /\ len > pad + 1
+    [] m.class = "CBCEtM" -> /\ len <= MaxPacket            \* readCipherPacketEtM
+                             /\ len >= Max(8, m.bs)
+                             /\ len % Max(8, m.bs) = 0
+                             /\ pad >= 4 /\ len > pad + 1
 
 (* streamPacketCipher.writeCipherPacket is the only writer with a size check. *)
 WriterAccepts(m, n) == m.class \in {"StreamEaM", "StreamEtM", "None"} => n <= MaxPacket
@@ -215,9 +221,9 @@ Undamaged(p) == p.t = "pkt" /\ p.dmg = "none"
 
 (* Does the MAC / tag the reader computes equal the one on the wire? *)
 TagOK(p) ==
-  CASE mode.class \in {"StreamEaM", "CBC", "CBCEtM"} ->     \* HMAC(seq || plaintext); cbcCipher ignores etm
+  CASE mode.class \in {"StreamEaM", "CBC"} ->     \* HMAC(seq || plaintext)
          Undamaged(p) /\ p.seq = seqR /\ InSync(p)
-    [] mode.class = "StreamEtM" ->               \* HMAC(seq || length || ciphertext)
+    [] mode.class \in {"StreamEtM", "CBCEtM"} ->  \* HMAC(seq || length || ciphertext), verified before decrypting
          Undamaged(p) /\ p.seq = seqR
     [] mode.class = "GCM" ->                     \* nonce = fixed || counter, AAD = length
          Undamaged(p) /\ p.ctr = ctrR
